@@ -249,7 +249,12 @@ func (e *EvalBinaryNode) EvalInt(scope *Scope, executionState ExecutionState) (i
 func (e *EvalBinaryNode) eval(scope *Scope, executionState ExecutionState) (resultContainer, *ErrSide) {
 	if e.evaluationFn == nil {
 		err := e.determineError(scope, executionState)
-		return boolFalseResultContainer, &ErrSide{error: err}
+		// determineError refreshed the operand types from this scope,
+		// an earlier point with other types may be what left no evaluation function.
+		e.evaluationFn = e.lookupEvaluationFn()
+		if e.evaluationFn == nil {
+			return boolFalseResultContainer, &ErrSide{error: err}
+		}
 	}
 
 	evaluationResult, err := e.evaluationFn(scope, executionState, e.leftEvaluator, e.rightEvaluator)
@@ -272,11 +277,9 @@ func (e *EvalBinaryNode) eval(scope *Scope, executionState ExecutionState) (resu
 
 			// redefine the evaluation fn
 			e.evaluationFn = e.lookupEvaluationFn()
-			if e.evaluationFn == nil {
-				return boolFalseResultContainer, err
-			}
 
-			// try again
+			// try again, if both sides changed type there is no evaluation fn
+			// for the half fixed pair and eval takes both types from the scope
 			return e.eval(scope, executionState)
 		}
 	}
